@@ -244,8 +244,8 @@ def install_rules(ctx, prog):
                 problems.append("descriptor %d is closed" % slot)
             elif cur[0] != exp[name]:
                 problems.append("descriptor %d refers to '%s' instead of '%s'" % (slot, cur[0], exp[name]))
-            elif mode == "exec" and cur[1]:
-                problems.append("descriptor %d still has close-on-exec set and is closed by exec" % slot)
+            elif mode == "exec" and cur[1] is not False:
+                problems.append("descriptor %d may still have close-on-exec set (flag %s) and be closed by exec" % (slot, cur[1]))
         key = (layout, mode, tuple(problems))
         per_layout.setdefault((layout, mode), []).append(problems)
         if key in seen:
